@@ -120,6 +120,7 @@ func drawConfig(r *rand.Rand, ps *PropSpec) world.Config {
 	cfg.HostReusesDNSMap = r.Intn(5) == 0
 	cfg.LongIDs = r.Intn(12) == 0
 	cfg.TraceLog = r.Intn(8) == 0
+	cfg.ScratchReads = r.Intn(6) == 0
 	return cfg
 }
 
